@@ -268,8 +268,19 @@ def run(ctx, res):
                 "some path through handle_message produces %s done/dispatch events (must be exactly 1): a request would get no `done` or two" % rr, hm.loc())
     # each own-done in handle_message is sent: the done block is followed by conn.send on every path
     snd = [bi for bi, t in hm.calls() if (M.callee_name(t) or "").endswith("Connection::send")]
+    def sends_own_done(gname):
+        """a helper that builds the `done` message and sends it itself on every path."""
+        g_ = P.funcs.get(gname)
+        if g_ is None:
+            return False
+        snd_ = [bi for bi, t in g_.calls() if (M.callee_name(t) or "").endswith("Connection::send")]
+        dn_ = done_blocks(g_)
+        return bool(snd_) and bool(dn_) and not any(x in D.reach_from(g_, [b_], avoid_blocks=snd_) for b_ in dn_ for x in returns(g_))
     for b in sorted(done_events(P, hm, memo, skip=("nrepl::dispatch_to_session",))):
         if b in snd:
+            continue
+        tb_ = hm.blocks[b]["term"]
+        if tb_["t"] == "call" and sends_own_done(M.callee_name(tb_) or ""):
             continue
         r = D.reach_from(hm, [b], avoid_blocks=snd)
         if any(x in r for x in returns(hm)):
@@ -307,7 +318,8 @@ def run(ctx, res):
 
     # ---- IN-ORDER / ISOLATION ----------------------------------------------------------------
     sw = P.require_fn("nrepl::session_worker")
-    recvs = [bi for bi, t in sw.calls() if (M.callee_name(t) or "").endswith("Receiver::<T>::recv")]
+    recvs = [bi for bi, t in sw.calls() if (M.callee_name(t) or "").endswith("Receiver::<T>::recv")
+             or ("mpsc::Iter<" in (M.callee_name(t) or "") and (M.callee_name(t) or "").endswith("Iterator>::next"))]      # `for req in rx.iter()` dequeues with Iter::next
     sends = [bi for bi, t in sw.calls() if (M.callee_name(t) or "").endswith("Sender::<T>::send")]
     revs = [bi for bi, t in sw.calls() if (M.callee_name(t) or "").endswith("Iterator::rev")]
     loops = D.natural_loops(sw)
